@@ -38,6 +38,9 @@ pub struct Endpoint {
     pub tx: usize,
     pub owner: Option<(u32, u32)>,
     pub closed: bool,
+    /// the peer's reset has been reported to this endpoint's reader (ECONNRESET is returned once,
+    /// after the queued data and before the end of the stream, as Linux does)
+    pub reset_reported: bool,
 }
 
 #[derive(Debug)]
@@ -158,9 +161,9 @@ impl Net {
         let to_label = self.listeners[l].addr.clone();
         let c2s = self.new_pipe(from.map(|f| f.0), to_node, from_label, &to_label);
         let s2c = self.new_pipe(to_node, from.map(|f| f.0), &to_label, from_label);
-        self.endpoints.push(Endpoint { rx: s2c, tx: c2s, owner: from, closed: false });
+        self.endpoints.push(Endpoint { rx: s2c, tx: c2s, owner: from, closed: false, reset_reported: false });
         let client = self.endpoints.len() - 1;
-        self.endpoints.push(Endpoint { rx: c2s, tx: s2c, owner: to_node.map(|n| (n, to_gen)), closed: false });
+        self.endpoints.push(Endpoint { rx: c2s, tx: s2c, owner: to_node.map(|n| (n, to_gen)), closed: false, reset_reported: false });
         let server = self.endpoints.len() - 1;
         self.listeners[l].queue.push_back(server);
         client
@@ -300,6 +303,17 @@ impl Net {
         } else {
             None
         }
+    }
+
+    /// After `read` returned end-of-stream: true (once) when the peer had closed with data of ours unread,
+    /// i.e. it answered with a reset and the reader is told ECONNRESET before it sees the end of the stream.
+    pub fn take_reset(&mut self, ep: usize) -> bool {
+        let tx = self.endpoints[ep].tx;
+        if self.endpoints[ep].closed || self.endpoints[ep].reset_reported || !self.pipes[tx].reset {
+            return false;
+        }
+        self.endpoints[ep].reset_reported = true;
+        true
     }
 
     pub fn close_endpoint(&mut self, ep: usize) {
